@@ -7,6 +7,7 @@ package vharness
 // transient adapter faults by call index (DESIGN.md §6 C11, C13).
 
 import (
+	"context"
 	"encoding/json"
 	"fmt"
 	"sort"
@@ -35,10 +36,11 @@ type ackCfg struct {
 	FailAck []int
 	Preload int // entries already stored before the worker is bound
 	Async   bool
+	CtxAt   int // >0: the worker has a context which is cancelled after this many virtual microseconds
 }
 
 func (c ackCfg) String() string {
-	return fmt.Sprintf("ack qk=%v conc=%d n=%d preload=%d failEnq=%v failDeq=%v failAck=%v async=%v out=%v", c.QK, c.Conc, c.N, c.Preload, c.FailEnq, c.FailDeq, c.FailAck, c.Async, c.Out)
+	return fmt.Sprintf("ack qk=%v conc=%d n=%d preload=%d failEnq=%v failDeq=%v failAck=%v async=%v ctxAt=%d out=%v", c.QK, c.Conc, c.N, c.Preload, c.FailEnq, c.FailDeq, c.FailAck, c.Async, c.CtxAt, c.Out)
 }
 
 func drawAck(r *Rng) ackCfg {
@@ -60,6 +62,9 @@ func drawAck(r *Rng) ackCfg {
 		c.FailAck = append(c.FailAck, 1+r.Intn(c.N))
 	}
 	c.Async = r.Chance(30)
+	if r.Chance(25) {
+		c.CtxAt = 1 + r.Intn(30)
+	}
 	return c
 }
 
@@ -105,7 +110,18 @@ func epAck(c *RunCtx, cfg ackCfg) *Result {
 			k.Recs[i].Submitted, k.Recs[i].OK = true, true
 			accepted[i] = true
 		}
-		s := NewSubject(WPlain, k.Work, cfg.Conc)
+		var wcfg []any
+		wcfg = append(wcfg, cfg.Conc)
+		if cfg.CtxAt > 0 {
+			ctx, cancel := context.WithCancel(context.Background())
+			defer cancel()
+			wcfg = append(wcfg, varmq.WithContext(ctx))
+			go func() {
+				time.Sleep(time.Duration(cfg.CtxAt) * time.Microsecond)
+				cancel()
+			}()
+		}
+		s := NewSubject(WPlain, k.Work, wcfg...)
 		q := s.Bind(cfg.QK, led)
 		ech := s.W.Errs()
 		var emu sync.Mutex
@@ -165,8 +181,16 @@ func epAck(c *RunCtx, cfg ackCfg) *Result {
 		}
 		// (2) outcome in this process: every accepted item ran once; the adapter is drained except refused acks
 		p, u, a := led.State()
+		stoppedByCtx := cfg.CtxAt > 0
 		for i, r := range k.Recs {
 			runs := int(r.Runs.Load())
+			if stoppedByCtx {
+				// the cancelled worker leaves the rest to the adapter; nothing may run twice here
+				if runs > 1 {
+					e.Fail("C11", "ran-twice", "", fmt.Sprintf("%s: job %d ran %d times", cfg, i, runs))
+				}
+				continue
+			}
 			if accepted[i] && runs != 1 {
 				e.Fail("C11", "accepted-not-processed", "", fmt.Sprintf("%s: job %d accepted by the adapter ran %d times (pending=%d unacked=%d acked=%d errs=%v)", cfg, i, runs, p, u, a, errs))
 				e.Fail("C01", "not-exactly-once", "ledger", fmt.Sprintf("%s: job %d ran %d times", cfg, i, runs))
@@ -178,15 +202,15 @@ func epAck(c *RunCtx, cfg ackCfg) *Result {
 				e.Fail("C11", "acked-twice", "", fmt.Sprintf("%s: job %d acknowledged %d times", cfg, i, acks[i]))
 			}
 		}
-		if p != 0 {
+		if p != 0 && !stoppedByCtx {
 			e.Fail("C11", "pending-left", "", fmt.Sprintf("%s: %d entries still pending at quiescence (errs %v)", cfg, p, errs))
 		}
-		if u != len(cfg.failAckEffective(calls)) {
+		if u != len(cfg.failAckEffective(calls)) && !stoppedByCtx {
 			e.Fail("C11", "unacked-left", "", fmt.Sprintf("%s: %d deliveries unacknowledged at quiescence, %d acknowledgements were refused by the adapter", cfg, u, len(cfg.failAckEffective(calls))))
 		}
 		nacc := len(accepted)
 		wantSub := nacc - cfg.Preload
-		if got := int(s.W.Metrics().Submitted()); got != wantSub {
+		if got := int(s.W.Metrics().Submitted()); got != wantSub && !stoppedByCtx {
 			e.Fail("C17", "submitted", "ledger/"+cfg.QK.String(), fmt.Sprintf("%s: Submitted=%d, accepted through this worker %d", cfg, got, wantSub))
 		}
 		// metrics at rest: every finished invocation is counted once (also when its acknowledgement was refused)
@@ -199,7 +223,7 @@ func epAck(c *RunCtx, cfg ackCfg) *Result {
 				}
 			}
 		}
-		if m := s.W.Metrics(); int(m.Completed()) != exits || m.Completed() != m.Successful()+m.Failed() || int(m.Failed()) != fails {
+		if m := s.W.Metrics(); (int(m.Completed()) != exits || m.Completed() != m.Successful()+m.Failed() || int(m.Failed()) != fails) && !stoppedByCtx {
 			e.Fail("C17", "completed", "ledger", fmt.Sprintf("%s: Completed=%d Successful=%d Failed=%d, finished invocations=%d of which %d panicked", cfg, m.Completed(), m.Successful(), m.Failed(), exits, fails))
 		}
 		e.ntFor("C17")
@@ -284,18 +308,25 @@ type distCfg struct {
 	Work      []time.Duration
 	Async     bool
 	Gated     bool
+	SlowSub   bool // Subscribe takes virtual time
 }
 
 func (c distCfg) String() string {
-	return fmt.Sprintf("dist prio=%v consumers=%v bindAfter=%v n=%d async=%v gated=%v", c.Prio, c.Consumers, c.BindAfter, c.N, c.Async, c.Gated)
+	return fmt.Sprintf("dist prio=%v consumers=%v bindAfter=%v n=%d async=%v gated=%v slowSub=%v", c.Prio, c.Consumers, c.BindAfter, c.N, c.Async, c.Gated, c.SlowSub)
 }
 
 func drawDist(r *Rng) distCfg {
-	c := distCfg{Prio: r.Bool(), N: 2 + r.Intn(14), Async: r.Chance(50), Gated: r.Chance(30)}
+	c := distCfg{Prio: r.Bool(), N: 2 + r.Intn(14), Async: r.Chance(50), Gated: r.Chance(30), SlowSub: r.Chance(35)}
 	nc := 1 + r.Intn(4)
 	for i := 0; i < nc; i++ {
 		c.Consumers = append(c.Consumers, Pick(r, 1, 1, 2, 3, 8))
 		c.BindAfter = append(c.BindAfter, Pick(r, 0, 0, r.Intn(c.N)))
+	}
+	if r.Chance(25) {
+		// every consumer binds to a backlog and nothing is announced afterwards
+		for i := range c.BindAfter {
+			c.BindAfter[i] = c.N
+		}
 	}
 	sort.Ints(c.BindAfter)
 	for i := 0; i < c.N; i++ {
@@ -312,6 +343,9 @@ func epDist(c *RunCtx, cfg distCfg) *Result {
 	out := RunBubble(c.T, func(bid string) {
 		led := NewLedger(e, cfg.Prio)
 		led.Async = cfg.Async
+		if cfg.SlowSub {
+			led.SubDelay = 20 * time.Microsecond
+		}
 		var gate chan struct{}
 		if cfg.Gated {
 			gate = make(chan struct{})
@@ -443,6 +477,7 @@ func runC11(c *RunCtx) {
 }
 
 func runC13(c *RunCtx) {
+	notifyProgramsK(c, 32, 160, true)
 	for v := 0; v < c.Q(96, 600); v++ {
 		c.Program(fmt.Sprintf("dist/%d", v), func(p *Prog) {
 			cfg := drawDist(p.Rng)
